@@ -683,3 +683,42 @@ PROVED_BY_HAND = {
     ("vm:VM._make_number_method.toPrecision", "int(js_round(rounded))"): "rounded = js_round(abs_n / 10**floor(log10(abs_n)), p) lies in [1, 10] for every finite non-zero abs_n",
     ("vm:VM._make_number_method.toPrecision", "int(rounded)"): "rounded = js_round(abs_n, k) with abs_n finite (NaN/Infinity returned earlier) is finite",
 }
+
+
+# ---- ord() of a case-mapped string ------------------------------------------------------------------
+_CASE_MAPS = ("upper", "lower", "casefold", "title", "capitalize", "swapcase")
+
+
+def rule_ord_of_case_mapping(ctx, rep, rid: str, modules: Optional[Tuple[str, ...]] = None, floor: int = 5) -> None:
+    """ord(s) needs len(s) == 1.  Unicode case mappings change the length of some strings of length one
+    ("ß".upper() == "SS", "İ".lower() is two code points), so ord() of a case-mapped character raises a host
+    TypeError for those characters unless the length (or ASCII-ness of the operand) has been established."""
+    rep.rule(rid, "ord() is never applied to the result of a Unicode case mapping (upper/lower/casefold/...) of a character unless the result's length is tested or the character is known to be ASCII: special casing makes some one-character strings longer", floor=floor)
+    from ..util import guards_of, single_assignments
+
+    for f in ctx.tree.funcs:
+        if modules is not None and not f.module.name.startswith(modules):
+            continue
+        env = None
+        for n in f.own_nodes():
+            if not (isinstance(n, ast.Call) and isinstance(n.func, ast.Name) and n.func.id == "ord" and len(n.args) == 1):
+                continue
+            arg = n.args[0]
+            if isinstance(arg, ast.Name):
+                env = env if env is not None else single_assignments(f)
+                arg = env.get(arg.id, arg)
+            mapped = [c for c in ([arg.body, arg.orelse] if isinstance(arg, ast.IfExp) else [arg]) if isinstance(c, ast.Call) and isinstance(c.func, ast.Attribute) and c.func.attr in _CASE_MAPS and not c.args]
+            key = f"{f.qual}:ord({short(n.args[0], 30)})"
+            if not mapped:
+                rep.ok(rid, key)
+                continue
+            m = mapped[0]
+            base = norm(m.func.value)
+            gs = [norm(t) for t, pol in guards_of(n, f.node) if pol]
+            if isinstance(n.args[0], ast.IfExp):
+                gs.append(norm(n.args[0].test))
+            safe = any(f"len({norm(m)}) == 1" in g or f"{base}.isascii()" in g for g in gs)
+            if safe:
+                rep.ok(rid, key, {"guard": "length / ASCII established"})
+            else:
+                rep.bad(rid, key, f"{f.qual} takes ord() of {norm(m)}: for characters whose {m.func.attr}-case mapping is longer than one character (\\u00df, \\u0130, \\u0149 ...) this is a host TypeError that escapes eval", f"{f.module.rel}:{n.lineno}")
